@@ -1,4 +1,5 @@
 import LZ4V.Proofs.WRProof
+import LZ4V.Gen.Calls
 /-!
 # C13 — multi-threaded CLI pipelines are correct under every thread schedule (model part)
 
@@ -10,16 +11,26 @@ Queue capacity and ring sizes come from the regenerated `Gen` layer / the `TPool
 namespace LZ4V.C13
 open LZ4V.Model LZ4V.Model.Pool
 
+/-- queue size of the compression pool = second argument of the first `TPool_create` call of the pipeline, read from the
+    source by the translator (0 when it is not an integer literal: the theorems below then do not check) -/
+def queueSizeOf (calls : List (List (Option Nat))) : Nat :=
+  match calls with
+  | (_ :: some q :: _) :: _ => q
+  | _ => 0
+
+def lz4fQueueSize : Nat := queueSizeOf LZ4V.Gen.Calls.LZ4IO_compressFilename_extRess_MT_TPool_create
+def legacyQueueSize : Nat := queueSizeOf LZ4V.Gen.Calls.LZ4IO_compressLegacy_internal_TPool_create
+
 /-- LZ4F compression pipeline: for every worker count, number of chunks, last-chunk shape and schedule, a job that pushes
-    into its own pool (the reader chain) never finds the queue full (capacity 4 in `TPool_create(nbWorkers, 4)`) -/
+    into its own pool (the reader chain) never finds the queue full (capacity from `TPool_create(nbWorkers, <literal>)`) -/
 theorem lz4f_reader_chain_never_blocks (nFull : Nat) (part : Bool) (w : Nat) (s : State)
-    (h : ReachFrom (igniteLZ4F nFull part w 4) s) : s.queue.length < s.cap :=
-  push_never_blocks (igniteLZ4F_inv nFull part w 4) (by show 3 ≤ 4; decide) h
+    (h : ReachFrom (igniteLZ4F nFull part w lz4fQueueSize) s) : s.queue.length < s.cap :=
+  push_never_blocks (igniteLZ4F_inv nFull part w lz4fQueueSize) (by show 3 ≤ lz4fQueueSize; decide) h
 
 /-- legacy compression pipeline, same statement -/
 theorem legacy_reader_chain_never_blocks (nFull : Nat) (part : Bool) (w : Nat) (s : State)
-    (h : ReachFrom (igniteLegacy nFull part w 4) s) : s.queue.length < s.cap :=
-  push_never_blocks (igniteLegacy_inv nFull part w 4) (by show 3 ≤ 4; decide) h
+    (h : ReachFrom (igniteLegacy nFull part w legacyQueueSize) s) : s.queue.length < s.cap :=
+  push_never_blocks (igniteLegacy_inv nFull part w legacyQueueSize) (by show 3 ≤ legacyQueueSize; decide) h
 
 theorem reach_workers {s0 s : State} (h : ReachFrom s0 s) : s.workers = s0.workers := by
   induction h with
